@@ -11,7 +11,8 @@ CFG = {
     "n": {"quick": 2000, "thorough": 40000},
     "exhaustive": {"quick": False, "thorough": True},
     "shrink": False,
-    "rule": "reference chains of 1..400 (thorough 1500) and 10^5 links, linear and cyclic, against a recursive named type (run in a "
+    "rule": "recursive types whose recursion node carries a refinement predicate, over cyclic object graphs (Driver/C09Pred.lean, follow-up to seed C09_11): termination with a bound on predicate calls and the verdict of Spec.gfp; "
+            "reference chains of 1..400 (thorough 1500) and 10^5 links, linear and cyclic, against a recursive named type (run in a "
             "256 KiB-stack thread); the C08 small enumeration (self reference, reference to reference); random graphs over <= 4 ids "
             "with arbitrary back edges x random specs with mutually recursive names; n/5 cyclic container graphs whose cycle passes "
             "through a disjunction-typed edge where an earlier alternative fails one level down; every case is run twice; "
